@@ -2,6 +2,7 @@
 Builds the sm4 test binary unstripped (go test -c), takes the addresses of the assembly's static data
 symbols from its symbol table and lets the monitor inside the process read its own memory there."""
 import json, os, subprocess
+import buildtags
 
 REPO = os.environ.get("VERIF_REPO", "/repo")
 NAMES = {"Shuffle", "Shuffle1", "Shuffle2", "AND_MASK", "LOWER_MASK", "GCM_POLY", "FK", "CK", "Counter_Add1", "Counter_Add2", "Counter_Add3"}
@@ -10,13 +11,7 @@ NAMES = {"Shuffle", "Shuffle1", "Shuffle2", "AND_MASK", "LOWER_MASK", "GCM_POLY"
 def run(out, unit, tier, seed, workdir, overlay):
     env = dict(os.environ, GOFLAGS="-mod=mod", GOPROXY="off", GOSUMDB="off", GOTOOLCHAIN="local")
     binp = os.path.join(workdir, "asmdata_sm4.test")
-    p = subprocess.run(["go", "test", "-c", "-vet=off", "-tags", "verif", "-overlay", overlay, "-o", binp, "./sm4/"], cwd=REPO, env=env, capture_output=True, text=True)
-    if p.returncode != 0:
-        # declarations of sealAsm/openAsm/copyAsm/needExpand differ from the ones called directly: stub the adapters out
-        p2 = subprocess.run(["go", "test", "-c", "-vet=off", "-tags", "verif,verifnoasm", "-overlay", overlay, "-o", binp, "./sm4/"], cwd=REPO, env=env, capture_output=True, text=True)
-        if p2.returncode == 0:
-            out.notes.setdefault("degraded_builds", []).append("engine_asmdata: test binary built with tag verifnoasm (direct calls of sealAsm/openAsm/copyAsm/needExpand unavailable on this tree)")
-            p = p2
+    p = buildtags.build_sm4(binp, overlay, REPO, env, out, "engine_asmdata")
     if p.returncode != 0:
         out.inconclusive.append("asmdata: build failed: " + (p.stdout + p.stderr)[-600:])
         return
